@@ -10,6 +10,7 @@ the concatenated input.  `h` is the hash of a single value (xxhash in the code) 
 import SigModel.Model.Pipe
 import SigModel.Lemmas.C06
 import SigModel.Lemmas.C06b
+import SigModel.Lemmas.C06c
 
 namespace SigModel.Props.C06
 open SigModel.Pipe SigModel.Lemmas.C06
@@ -40,23 +41,17 @@ theorem chunk_invariant_scroll (n : Nat) (parts : List Table) :
 /-- `rename old as new` -/
 theorem chunk_invariant_rename (a b : String) (parts : List Table) :
     runBatched (rowwiseProc (renameTable a b)) parts = sem (.rename a b) parts.flatten := by
-  simp only [runBatched, runBatches, rowwiseProc, Bool.false_eq_true, ↓reduceIte, Bool.not_false, sem]
-  rw [show (pass (rowwiseProc (renameTable a b)) true () parts).2 = _ from rowwise_pass _ parts]
-  exact map_flatten_of_hom _ (by simp [renameTable, dropEmpty]) (by intro x y; simp [renameTable, dropEmpty]) parts
+  exact rowwise_run _ (by simp [renameTable, dropEmpty]) (by intro x y; simp [renameTable, dropEmpty]) parts
 
 /-- `fields + …` / `fields - …` (literal names) -/
 theorem chunk_invariant_fields (inc : Bool) (fs : List String) (parts : List Table) :
     runBatched (rowwiseProc (fieldsTable inc fs)) parts = sem (.fields inc fs) parts.flatten := by
-  simp only [runBatched, runBatches, rowwiseProc, Bool.false_eq_true, ↓reduceIte, Bool.not_false, sem]
-  rw [show (pass (rowwiseProc (fieldsTable inc fs)) true () parts).2 = _ from rowwise_pass _ parts]
-  exact map_flatten_of_hom _ (by simp [fieldsTable, dropEmpty]) (by intro x y; simp [fieldsTable, dropEmpty]) parts
+  exact rowwise_run _ (by simp [fieldsTable, dropEmpty]) (by intro x y; simp [fieldsTable, dropEmpty]) parts
 
 /-- `fillnull value=v f1 …` (with a field list: streaming) -/
 theorem chunk_invariant_fillnull_fields (v : String) (f : String) (fs : List String) (parts : List Table) :
     runBatched (rowwiseProc (fillTable (f :: fs) v)) parts = sem (.fillnull v (f :: fs)) parts.flatten := by
-  simp only [runBatched, runBatches, rowwiseProc, Bool.false_eq_true, ↓reduceIte, Bool.not_false, sem]
-  rw [show (pass (rowwiseProc (fillTable (f :: fs) v)) true () parts).2 = _ from rowwise_pass _ parts]
-  exact map_flatten_of_hom _ (by simp [fillTable]) (by intro x y; simp [fillTable]) parts
+  exact rowwise_run _ (by simp [fillTable]) (by intro x y; simp [fillTable]) parts
 
 /-- `fillnull value=v` without a field list — the two-pass command: the first read collects the columns of
 the whole stream, `Rewind`, the second read fills.  Stated for two DIFFERENT partitions of the same rows
@@ -111,14 +106,283 @@ theorem chain_invariant (ss : List Stage) : ∀ (parts : List Table),
 commands) is `runBatches` for one DataProcessor over the replayed source … -/
 theorem read_single {σ : Type} (p : Proc σ) (parts : List Table) (n : Nat) :
     (Chain.read (n + 2) (.dp (.src parts) p p.init false)).2 = runBatches p parts := by
-  simp only [Chain.read, runBatches, Chain.rewind]
+  simp only [Chain.read, runBatches, Chain.rewind, Chain.writeBack]
   cases p.twoPass <;> simp
 
 /-- … and `runBatches` of `runBatches` for a single-pass command on top of any command. -/
 theorem read_pair {σ τ : Type} (p : Proc σ) (q : Proc τ) (hq : q.twoPass = false) (parts : List Table) (n : Nat) :
     (Chain.read (n + 3) (.dp (.dp (.src parts) p p.init false) q q.init false)).2 = runBatches q (runBatches p parts) := by
   have h1 := read_single p parts n
-  simp only [Chain.read, runBatches, hq, Bool.false_and, Bool.false_eq_true, ↓reduceIte, Bool.or_false] at h1 ⊢
+  simp only [Chain.read, Chain.writeBack, Chain.rewind, runBatches, hq, Bool.false_and, Bool.false_eq_true, ↓reduceIte, Bool.or_false] at h1 ⊢
   cases hp : p.twoPass <;> simp [hp] at h1 ⊢
+
+/-! ### dedup -/
+
+/-- guard: every non-empty batch carries every dedup field as a column (Bool, decidable) -/
+def colsOK (fs : List String) (parts : List Table) : Bool :=
+  parts.all (fun b => b.isEmpty || fs.all (hasCol b))
+
+/-- What the CODE computes, for every hash function, every option set (limit, consecutive, keepempty,
+keepevents) and every partition whose batches carry the dedup columns: dedup of the whole stream under
+the key "XOR of the per-field hashes".  The seen-map survives batch boundaries exactly. -/
+theorem chunk_invariant_dedup_code (h : Val → Nat) (o : DedupOpts) (parts : List Table)
+    (hf : o.fields ≠ []) (hc : colsOK o.fields parts = true) :
+    runBatched (dedupProc h o) parts = dedupSpec (rowKey (xorKey h) o.fields) o parts.flatten := by
+  obtain ⟨f0, fs, hfs⟩ : ∃ f0 fs, o.fields = f0 :: fs := by
+    cases hfl : o.fields with
+    | nil => exact absurd hfl hf
+    | cons a l => exact ⟨a, l, rfl⟩
+  have hok : firstColOK f0 parts := by
+    intro b hb hne
+    have := (List.all_eq_true.mp hc) b hb
+    rw [hne, Bool.false_or, hfs] at this
+    exact (List.all_eq_true.mp this) f0 List.mem_cons_self
+  show (if (dedupProc h o).twoPass then _ else
+      (pass (dedupProc h o) (!(dedupProc h o).bottleneck) (dedupProc h o).init parts).2).flatten = _
+  rw [show (dedupProc h o).twoPass = false from rfl, show (dedupProc h o).bottleneck = false from rfl,
+    show (dedupProc h o).init = [] from rfl]
+  simp only [Bool.false_eq_true, ↓reduceIte, Bool.not_false]
+  rw [dedup_pass h o f0 fs hfs parts [] hok, dedupRows_spec h o parts.flatten [] [] (rel_init _)]
+  rfl
+
+/-- FULL STATEMENT one would like about the key: rows with different value tuples get different keys
+(granting that the single-value hash is collision-free on the values involved). -/
+def KeyInjective (h : Val → Nat) : Prop :=
+  ∀ vs ws : List Val, vs.length = ws.length →
+    (∀ v w, v ∈ vs ++ ws → w ∈ vs ++ ws → h v = h w → v = w) →
+    xorKey h vs = xorKey h ws → vs = ws
+
+/-- The combination is commutative: for EVERY hash function (1,2) and (2,1) get the same key … -/
+theorem dedup_key_counterexample (h : Val → Nat) :
+    xorKey h [.int 1, .int 2] = xorKey h [.int 2, .int 1] := xorKey_swap h _ _
+
+/-- … and every pair of equal values gets key 0: (1,1) and (2,2) collide as well. -/
+theorem dedup_key_counterexample_cancel (h : Val → Nat) :
+    xorKey h [.int 1, .int 1] = xorKey h [.int 2, .int 2] := by
+  rw [xorKey_pair_self, xorKey_pair_self]
+
+/-- so the full statement is FALSE for every hash that tells 1 from 2 -/
+theorem dedup_key_not_injective (h : Val → Nat) (h12 : h (.int 1) ≠ h (.int 2)) : ¬ KeyInjective h := by
+  intro hinj
+  have := hinj [.int 1, .int 2] [.int 2, .int 1] rfl (by
+    intro v w hv hw e
+    simp at hv hw
+    rcases hv with rfl | rfl | rfl | rfl <;> rcases hw with rfl | rfl | rfl | rfl <;>
+      first | rfl | exact absurd e h12 | exact absurd e.symm h12) (dedup_key_counterexample h)
+  simp at this
+
+/-- partial: with a single field the key is the hash of the value, injective when the hash is -/
+theorem dedup_key_injective_single (h : Val → Nat) (hinj : ∀ v w, h v = h w → v = w) (v w : Val)
+    (e : xorKey h [v] = xorKey h [w]) : v = w := by
+  rw [xorKey_single, xorKey_single] at e; exact hinj v w e
+
+/-- guard: on the rows of this table the XOR key separates what the value tuples separate (Bool) -/
+def keyFaithful (h : Val → Nat) (fs : List String) (t : Table) : Bool :=
+  t.all (fun r => t.all (fun r' =>
+    match rowKey (fun vs => vs) fs r, rowKey (fun vs => vs) fs r' with
+    | some vs, some ws => xorKey h vs != xorKey h ws || vs == ws
+    | _, _ => true))
+
+/-- PARTIAL: under the column guard and the key guard the code's dedup IS the documented dedup (key = the
+tuple of field values) of the whole stream, for every partition. -/
+theorem chunk_invariant_dedup_partial (h : Val → Nat) (o : DedupOpts) (parts : List Table)
+    (hf : o.fields ≠ []) (hc : colsOK o.fields parts = true)
+    (hk : keyFaithful h o.fields parts.flatten = true) :
+    runBatched (dedupProc h o) parts = sem (.dedup o) parts.flatten := by
+  rw [chunk_invariant_dedup_code h o parts hf hc]
+  simp only [sem, dedupSpec]
+  have hkey : (rowKey (xorKey h) o.fields) = fun r => (rowKey (fun vs => vs) o.fields r).map (xorKey h) := by
+    funext r; exact rowKey_map _ _ _
+  rw [hkey]
+  have := spec_congr (xorKey h) (rowKey (fun vs => vs) o.fields) o parts.flatten [] (by
+    intro x y hx hy e
+    rcases hx with hx | ⟨r, hr, hx⟩
+    · exact absurd hx (by simp)
+    rcases hy with hy | ⟨r', hr', hy⟩
+    · exact absurd hy (by simp)
+    have h1 := (List.all_eq_true.mp ((List.all_eq_true.mp hk) r hr)) r' hr'
+    rw [hx, hy] at h1
+    simp only [Bool.or_eq_true, bne_iff_ne, ne_eq, beq_iff_eq] at h1
+    rcases h1 with h1 | h1
+    · exact absurd e h1
+    · exact h1)
+  simpa using this
+
+/-- the key guard holds for every single-field dedup when the hash is collision-free -/
+theorem dedup_single_field_faithful (h : Val → Nat) (hinj : ∀ v w, h v = h w → v = w) (f : String) (t : Table) :
+    keyFaithful h [f] t = true := by
+  unfold keyFaithful
+  refine List.all_eq_true.mpr (fun r _ => List.all_eq_true.mpr (fun r' _ => ?_))
+  cases h1 : rowKey (fun vs => vs) [f] r with
+  | none => rfl
+  | some vs =>
+    cases h2 : rowKey (fun vs => vs) [f] r' with
+    | none => rfl
+    | some ws =>
+      simp only [Bool.or_eq_true, bne_iff_ne, ne_eq, beq_iff_eq]
+      have e1 : vs = [r.get f] := by
+        simp only [rowKey, List.map_cons, List.map_nil] at h1
+        split at h1 <;> simp_all
+      have e2 : ws = [r'.get f] := by
+        simp only [rowKey, List.map_cons, List.map_nil] at h2
+        split at h2 <;> simp_all
+      subst e1 e2
+      by_cases e : xorKey h [r.get f] = xorKey h [r'.get f]
+      · right; rw [dedup_key_injective_single h hinj _ _ e]
+      · left; exact e
+
+theorem chunk_invariant_dedup_single_field (h : Val → Nat) (hinj : ∀ v w, h v = h w → v = w)
+    (o : DedupOpts) (f : String) (hf : o.fields = [f]) (parts : List Table) (hc : colsOK o.fields parts = true) :
+    runBatched (dedupProc h o) parts = sem (.dedup o) parts.flatten :=
+  chunk_invariant_dedup_partial h o parts (by simp [hf]) hc (by rw [hf]; exact dedup_single_field_faithful h hinj f _)
+
+/-- COUNTEREXAMPLE to the full statement "dedup a b means dedup on the pair (a, b)": for EVERY hash function
+the rows (a=1,b=2), (a=2,b=1) in one dense batch come out as one row. -/
+theorem chunk_invariant_dedup_counterexample (h : Val → Nat) :
+    ¬ (∀ (o : DedupOpts) (parts : List Table), o.fields ≠ [] → colsOK o.fields parts = true →
+        runBatched (dedupProc h o) parts = sem (.dedup o) parts.flatten) := by
+  intro hall
+  have := hall { fields := ["a", "b"] }
+    [[[("a", .int 1), ("b", .int 2)], [("a", .int 2), ("b", .int 1)]]] (by simp) (by simp [colsOK, hasCol, Row.hasKey])
+  rw [chunk_invariant_dedup_code h _ _ (by simp) (by simp [colsOK, hasCol, Row.hasKey])] at this
+  have hl := congrArg List.length this
+  simp [sem, dedupSpec, dedupSpecFrom, rowKey, Row.get, List.lookup_cons, Val.isNull, emitRow, xorKey, Nat.xor_comm] at hl
+
+/-- COUNTEREXAMPLE, column missing in one batch: the same two rows, delivered as one batch or as two,
+give different outputs — for every hash function (the second row has no `a`; alone in a batch that has no
+column `a` it passes, next to a row that has `a` it is dropped). -/
+theorem dedup_missing_column_counterexample (h : Val → Nat) :
+    ∃ (o : DedupOpts) (parts1 parts2 : List Table), o.fields ≠ [] ∧ parts1.flatten = parts2.flatten ∧
+      runBatched (dedupProc h o) parts1 ≠ runBatched (dedupProc h o) parts2 := by
+  refine ⟨{ fields := ["a"] }, [[[("a", .int 1), ("b", .int 1)], [("b", .int 2)]]],
+    [[[("a", .int 1), ("b", .int 1)]], [[("b", .int 2)]]], by simp, by simp, ?_⟩
+  intro e
+  have hl := congrArg List.length e
+  simp [runBatched, runBatches, dedupProc, pass, otl, hasCol, Row.hasKey, dedupRows, dedupRow, rowKey, Row.get,
+    List.lookup_cons, Val.isNull, emitRow, seenBump, seenSet] at hl
+
+
+/-! ### a two-pass command on top of a stateful command (the upstream is rewound and read again) -/
+
+/-- the single-pass processor `p`, rewound after a complete read of `parts`, yields its meaning again -/
+def RereadableOn {σ : Type} (p : Proc σ) (f : Table → Table) (parts : List Table) : Prop :=
+  ((pass p (!p.bottleneck) (p.rewind (pass p (!p.bottleneck) p.init parts).1) parts).2).flatten = f parts.flatten
+
+/-- `head`'s Rewind resets the counter -/
+theorem rereadable_head (n : Nat) (parts : List Table) : RereadableOn (headProc n) (sem (.head n)) parts := by
+  have := chunk_invariant_head n parts
+  simpa [RereadableOn, runBatched, runBatches, headProc] using this
+
+/-- `dedup`'s Rewind drops the seen-map -/
+theorem rereadable_dedup (h : Val → Nat) (o : DedupOpts) (parts : List Table) (hf : o.fields ≠ [])
+    (hc : colsOK o.fields parts = true) (hk : keyFaithful h o.fields parts.flatten = true) :
+    RereadableOn (dedupProc h o) (sem (.dedup o)) parts := by
+  have := chunk_invariant_dedup_partial h o parts hf hc hk
+  unfold RereadableOn
+  rw [show (dedupProc h o).rewind _ = (dedupProc h o).init from rfl]
+  simpa [runBatched, runBatches, dedupProc] using this
+
+/-- `tail` does not rewind anything: it answers with the final result it already has -/
+theorem rereadable_tail (n : Nat) (parts : List Table) : RereadableOn (tailProc n) (sem (.tail n)) parts := by
+  have := chunk_invariant_tail n parts
+  unfold RereadableOn
+  rw [show (tailProc n).bottleneck = true from rfl]
+  simp only [Bool.not_true]
+  rw [tail_reread]
+  simpa [runBatched, runBatches, tailProc] using this
+
+/-- the row-wise commands have no state -/
+theorem rereadable_rowwise (f : Table → Table) (h0 : f [] = []) (happ : ∀ a b, f (a ++ b) = f a ++ f b)
+    (parts : List Table) : RereadableOn (rowwiseProc f) f parts := by
+  have := rowwise_run f h0 happ parts
+  unfold RereadableOn
+  rw [show (rowwiseProc f).rewind _ = (rowwiseProc f).init from rfl]
+  simpa [runBatched, runBatches, rowwiseProc] using this
+
+/-- tail keeps a reference to the result it emitted; with nothing in between that is what it already has -/
+theorem retain_tail_noop (n : Nat) (parts : List Table) :
+    (tailProc n).retain (pass (tailProc n) false (tailProc n).init parts).1 (pass (tailProc n) false (tailProc n).init parts).2
+      = (pass (tailProc n) false (tailProc n).init parts).1 := by
+  obtain ⟨g, hg⟩ := tail_pass_state n parts none
+  rw [show (tailProc n).init = { fin := none, eof := false } from rfl, hg]
+  cases g <;> simp [tailProc, otl]
+
+/-- The two-pass `fillnull` on top of any single-pass command that is chunk-invariant and re-readable:
+first read, Rewind of the whole chain, second read — the chain means fillnull of the upstream's meaning,
+for every partition of the source.  (`Chain.read` is what the Oracle runs; `hret`: see `Proc.retain` —
+holds by `rfl` for every processor but tail, and for tail by `retain_tail_noop`.) -/
+theorem two_pass_over {σ : Type} (p : Proc σ) (hp2 : p.twoPass = false) (f : Table → Table) (parts : List Table)
+    (n : Nat) (v : String) (h1 : runBatched p parts = f parts.flatten) (h2 : RereadableOn p f parts)
+    (hret : p.retain (pass p (!p.bottleneck) p.init parts).1 (pass p (!p.bottleneck) p.init parts).2
+              = (pass p (!p.bottleneck) p.init parts).1) :
+    ((Chain.read (n + 3) (.dp (.dp (.src parts) p p.init false) (fillAllProc v) (fillAllProc v).init false)).2).flatten
+      = sem (.fillnull v []) (f parts.flatten) := by
+  simp only [Chain.read, Chain.rewind, Chain.writeBack, hp2, show (fillAllProc v).twoPass = true from rfl,
+    Bool.false_and, Bool.or_false, Bool.not_false, Bool.and_true, Bool.false_eq_true, ↓reduceIte]
+  rw [hret]
+  have hx1 : ((pass p (!p.bottleneck) p.init parts).2).flatten = f parts.flatten := by
+    simpa [runBatched, runBatches, hp2] using h1
+  have := two_pass_fillnull_all v (pass p (!p.bottleneck) p.init parts).2
+    (pass p (!p.bottleneck) (p.rewind (pass p (!p.bottleneck) p.init parts).1) parts).2 (by rw [hx1]; exact h2.symm)
+  rw [hx1] at this
+  exact this
+
+/-- COUNTEREXAMPLE, "in one or two passes": `tail 1 | rename b as e | fillnull value=0`.  tail answers the
+second pass with the very result object of the first pass, which `rename` has already renamed in place;
+renaming it again deletes the target column (RenameColumn deletes `e` first, and `b` is gone), and fillnull
+then fills the column it saw in the first pass.  The values of `b` are lost — for every hash, in ONE batch.
+(With `head`, `dedup`, `fields`, `fillnull <fields>` in the middle the second application changes nothing;
+with nothing in the middle see `two_pass_over` + `rereadable_tail`.) -/
+theorem two_pass_reread_counterexample (h : Val → Nat) :
+    runChain h [.tail 1, .rename "b" "e", .fillnull "30" []] [[[("a", .int 1), ("b", .int 7)]]]
+      ≠ sem (.fillnull "30" []) (sem (.rename "b" "e") (sem (.tail 1) [[("a", .int 1), ("b", .int 7)]])) := by
+  have e1 : runChain h [.tail 1, .rename "b" "e", .fillnull "30" []] [[[("a", .int 1), ("b", .int 7)]]]
+      = [[("e", .str "30"), ("a", .int 1)]] := rfl
+  have e2 : sem (.fillnull "30" []) (sem (.rename "b" "e") (sem (.tail 1) [[("a", .int 1), ("b", .int 7)]]))
+      = [[("e", .int 7), ("a", .int 1)]] := rfl
+  rw [e1, e2]; decide
+
+/-! ### the whole command set -/
+
+/-- the condition under which a command is proved chunk-invariant AND equal to its documented meaning -/
+def Guard (h : Val → Nat) : Cmd → List Table → Prop
+  | .dedup o, parts => o.fields ≠ [] ∧ colsOK o.fields parts = true ∧ keyFaithful h o.fields parts.flatten = true
+  | _, _ => True
+
+/-- C06 for every modelled command: one DataProcessor of the command over ANY partition of ANY table yields
+the documented meaning on the whole ordered input (dedup: under its guard). -/
+theorem chunk_invariant (h : Val → Nat) (c : Cmd) (parts : List Table) (hg : Guard h c parts) :
+    runCmd h c parts = sem c parts.flatten := by
+  cases c with
+  | head n => exact chunk_invariant_head n parts
+  | tail n => exact chunk_invariant_tail n parts
+  | scroll n => exact chunk_invariant_scroll n parts
+  | dedup o => exact chunk_invariant_dedup_partial h o parts hg.1 hg.2.1 hg.2.2
+  | fillnull v fs =>
+    cases fs with
+    | nil => exact chunk_invariant_fillnull_all v parts
+    | cons f fs => exact chunk_invariant_fillnull_fields v f fs parts
+  | rename a b => exact chunk_invariant_rename a b parts
+  | fields inc fs => exact chunk_invariant_fields inc fs parts
+
+/-- what the Oracle runs for a one-command op line is `runCmd` -/
+theorem runChain_single (h : Val → Nat) (c : Cmd) (parts : List Table) :
+    runChain h [c] parts = runCmd h c parts := by
+  cases c with
+  | fillnull v fs => cases fs <;> simp only [runChain, List.foldl, Cmd.stage, List.length, runCmd, runBatched] <;> rw [read_single]
+  | _ => simp only [runChain, List.foldl, Cmd.stage, List.length, runCmd, runBatched]; rw [read_single]
+
+/-! ### non-vacuity -/
+
+/-- a hash that tells 1 from 2 exists (so `dedup_key_not_injective` is not vacuous) -/
+example : ∃ h : Val → Nat, h (.int 1) ≠ h (.int 2) :=
+  ⟨fun v => match v with | .int i => i.toNat | _ => 0, by decide⟩
+
+/-- the dedup guards are satisfiable on a table with duplicates, split in two batches -/
+example : Guard (fun v => match v with | .int i => i.toNat | _ => 0)
+    (.dedup { fields := ["a", "b"] })
+    [[[("a", .int 1), ("b", .int 2)]], [[("a", .int 1), ("b", .int 2)], [("a", .int 4), ("b", .int 2)]]] := by
+  refine ⟨by simp, by simp [colsOK, hasCol, Row.hasKey], ?_⟩
+  simp [keyFaithful, rowKey, Row.get, List.lookup_cons, Val.isNull, xorKey]
 
 end SigModel.Props.C06
